@@ -659,12 +659,15 @@ impl Messages {
 // H
 
 pub struct CfgSites {
+    /// every place a collection can start from: (file, enclosing fn, the call as written)
+    pub collect_calls: Vec<(String, String, String)>,
     pub cfgs: Vec<(String, String, String, String, usize)>, // file, where, predicate, form, line
     pub fiber_writes: Vec<(String, String, usize, String, usize)>, // fn, field, ordinal, op, line
     pub fiber_inits: Vec<(String, String)>,
 }
 
 struct CfgSink {
+    collect_calls: Vec<(String, String, String)>,
     cfgs: Vec<(String, String, String, String, usize)>,
     fiber_writes: Vec<(String, String, usize, String, usize)>,
     fiber_inits: Vec<(String, String)>,
@@ -750,6 +753,26 @@ impl SiteSink for CfgSink {
     }
 
     fn expr(&mut self, ctx: &Ctx, e: &Expr) {
+        // a call that starts a collection: `collect` / `collect_if_required` on the heap (receiver `self` inside `impl Heap`, or an
+        // expression naming the heap), or a call of a free function of that name (`memory::collect()`); `Iterator::collect` has an
+        // iterator chain as receiver and is not one
+        match e {
+            Expr::MethodCall(mc) if mc.method == "collect" || mc.method == "collect_if_required" => {
+                let recv = compact(&toks(&*mc.receiver));
+                let in_heap = ctx.impl_prefix.as_deref().map(|p| p == "Heap").unwrap_or(false);
+                if (recv == "self" && in_heap) || recv.to_lowercase().contains("heap") {
+                    self.collect_calls.push((ctx.file.clone(), ctx.fn_name(), compact(&toks(e))));
+                }
+            }
+            Expr::Call(c) => {
+                let f = compact(&toks(&*c.func));
+                let last = f.rsplit("::").next().unwrap_or("").to_string();
+                if matches!(last.as_str(), "collect" | "collect_if_required" | "force_collect" | "collect_garbage" | "gc") {
+                    self.collect_calls.push((ctx.file.clone(), ctx.fn_name(), compact(&toks(e))));
+                }
+            }
+            _ => {}
+        }
         if !self.is_vm {
             return;
         }
@@ -819,6 +842,7 @@ impl SiteSink for CfgSink {
 
 pub fn cfg_sites(srcs: &[Src]) -> R<CfgSites> {
     let mut out = CfgSites {
+        collect_calls: Vec::new(),
         cfgs: Vec::new(),
         fiber_writes: Vec::new(),
         fiber_inits: Vec::new(),
@@ -826,6 +850,7 @@ pub fn cfg_sites(srcs: &[Src]) -> R<CfgSites> {
     let mut saw_vm = false;
     for s in srcs {
         let mut sink = CfgSink {
+            collect_calls: Vec::new(),
             cfgs: Vec::new(),
             fiber_writes: Vec::new(),
             fiber_inits: Vec::new(),
@@ -839,6 +864,7 @@ pub fn cfg_sites(srcs: &[Src]) -> R<CfgSites> {
             return Err(e);
         }
         out.cfgs.extend(sink.cfgs);
+        out.collect_calls.extend(sink.collect_calls);
         out.fiber_writes.extend(sink.fiber_writes);
         out.fiber_inits.extend(sink.fiber_inits);
     }
@@ -851,6 +877,15 @@ pub fn cfg_sites(srcs: &[Src]) -> R<CfgSites> {
 impl CfgSites {
     pub fn to_json(&self) -> J {
         jobj(vec![
+            (
+                "collect_calls",
+                J::Arr(
+                    self.collect_calls
+                        .iter()
+                        .map(|(f, w, c)| jobj(vec![("file", js(f.clone())), ("where", js(w.clone())), ("call", js(c.clone()))]))
+                        .collect(),
+                ),
+            ),
             (
                 "cfg_sites",
                 J::Arr(
@@ -908,6 +943,17 @@ impl CfgSites {
                 .cfgs
                 .iter()
                 .map(|(f, w, p, _, _)| format!("({}, {}, {})", lean_str(f), lean_str(w), lean_str(p)))
+                .collect::<Vec<_>>(),
+        );
+        l.comment("");
+        l.comment("Every call that starts a collection (verif_hooks / test items stripped): (file, enclosing fn, the call as written).");
+        l.def_list(
+            "collectCalls",
+            "List (String × String × String)",
+            &self
+                .collect_calls
+                .iter()
+                .map(|(f, w, c)| format!("({}, {}, {})", lean_str(f), lean_str(w), lean_str(c)))
                 .collect::<Vec<_>>(),
         );
         l.comment("");
